@@ -26,7 +26,7 @@ def L(s):
 def text_axioms():
     ax = [ForAll([a_, b_], And(tlen(cat(a_, b_)) == tlen(a_) + tlen(b_), vis(cat(a_, b_)) == vis(a_) + vis(b_), nl(cat(a_, b_)) == nl(a_) + nl(b_)), patterns=[cat(a_, b_)]),
           ForAll([n_], And(tlen(spaces(n_)) == If(n_ > 0, n_, 0), vis(spaces(n_)) == If(n_ > 0, n_, 0), nl(spaces(n_)) == 0), patterns=[spaces(n_)]),
-          ForAll([a_], And(tlen(a_) >= 0, vis(a_) >= 0, vis(a_) <= tlen(a_), nl(a_) >= 0))]
+          ForAll([a_], And(tlen(a_) >= 0, vis(a_) >= 0, vis(a_) <= tlen(a_), nl(a_) >= 0, nl(a_) <= tlen(a_)))]
     for s, c in _lit.items():
         ax.append(And(tlen(c) == len(s), vis(c) == (0 if s in ESC else len(s)), nl(c) == s.count('\n')))
     return ax
@@ -88,8 +88,8 @@ def colored_text_unit():
                            ('colour-code-is-invisible', lambda c: Implies(OTX.dt.is_some(c['color']), vis(OTX.dt.val(c['color'])) == 0)),
                            ('text-has-no-colour-codes', lambda c: vis(c['text']) == tlen(c['text']))],
               'ensures': [('C20/visible-width-is-max-of-text-length-and-width', lambda c: vis(c.result.e) == If(tlen(c.old('text')) > c.old('width'), tlen(c.old('text')), c.old('width'))),
-                          ('C20/no-line-break-added', lambda c: Implies(OTX.dt.is_some(c['color']), nl(c.result.e) == nl(c.old('text')) + nl(OTX.dt.val(c['color'])))
-                           if False else nl(c.result.e) >= nl(c.old('text')))]}
+                          ('C20/no-line-break-added', lambda c: nl(c.result.e) == nl(c.old('text')) + If(OTX.dt.is_some(c['color']), nl(OTX.dt.val(c['color'])), 0)),
+                          ('C20/result-is-not-shorter-than-the-text', lambda c: tlen(c.result.e) >= tlen(c.old('text')))]}
         return Engine(F, 'colored_text', {}, {}, fc, plugins=[TextPlugin()]), text_axioms_lazy()
     return Unit('colored_text', F, build, ['C20'])
 
@@ -126,7 +126,7 @@ def c_colored_text(eng, st, recv, args, kws, node):
     col = eng.coerce(color, OTX)
     st.oblige('req@colored_text/colour-code-is-invisible', Implies(OTX.dt.is_some(col), vis(OTX.dt.val(col)) == 0), f'@{node.lineno}')
     r = fresh('ct', TXT)
-    st.assume(vis(r) == If(tlen(text.e) > width.e, tlen(text.e), width.e))
+    st.assume(And(vis(r) == If(tlen(text.e) > width.e, tlen(text.e), width.e), nl(r) == nl(text.e) + If(OTX.dt.is_some(col), nl(OTX.dt.val(col)), 0), tlen(r) >= tlen(text.e)))
     return [(st, V(r, TXT))]
 
 
@@ -141,19 +141,23 @@ def row_repr_unit():
             return And(c['self'] != ROW.null, Select(c.fld('_TextTableRow', 'cells'), c['self']) != CELLS.null, LI_.len(w) >= 0,
                        ForAll([j], Implies(And(0 <= j, j < LI_.len(w)), LI_.at(w, j) >= 0), patterns=[LI_.at(w, j)]),
                        OTX.dt.is_none(Select(c.fld('_TextTableRow', 'bg_color'), c['self'])),
-                       Implies(OTX.dt.is_some(rowcol), vis(OTX.dt.val(rowcol)) == 0),
-                       Implies(OTX.dt.is_some(c['border_color']), vis(OTX.dt.val(c['border_color'])) == 0),
+                       Implies(OTX.dt.is_some(rowcol), And(vis(OTX.dt.val(rowcol)) == 0, nl(OTX.dt.val(rowcol)) == 0)),
+                       Implies(OTX.dt.is_some(c['border_color']), And(vis(OTX.dt.val(c['border_color'])) == 0, nl(OTX.dt.val(c['border_color'])) == 0)),
                        ForAll([j], Implies(And(0 <= j, j < LC.len(cl)), And(LC.at(cl, j) != CELL.null, vis(txt[LC.at(cl, j)]) == tlen(txt[LC.at(cl, j)]), OTX.dt.is_none(bg[LC.at(cl, j)]),
-                                                                             Implies(OTX.dt.is_some(col[LC.at(cl, j)]), vis(OTX.dt.val(col[LC.at(cl, j)])) == 0),
+                                                                             Implies(OTX.dt.is_some(col[LC.at(cl, j)]), And(vis(OTX.dt.val(col[LC.at(cl, j)])) == 0, nl(OTX.dt.val(col[LC.at(cl, j)])) == 0)),
+                                                                             nl(txt[LC.at(cl, j)]) == 0,
                                                                              Implies(j < LI_.len(w), tlen(txt[LC.at(cl, j)]) <= LI_.at(w, j)))), patterns=[LC.at(cl, j)]))
         bord = lambda c: If(c['border'], 1, 0)
         fc = {'sig': {'self': ROW, 'width': LI_, 'border': BOOL, 'border_color': OTX}, 'locals': {'res': TXT, 'text': TXT},
               'requires': [('cells-fit-their-columns-and-carry-no-colour-codes', req)],
               'loops': {0: {'fingerprint': 'for i in range(0, len(width))',
                             'invariant': [('width-so-far', lambda c: And(c['_i0'] >= 0, c['_i0'] <= LI_.len(c['width']),
-                                                                         vis(c['res']) == vsum(c['width'], c['_i0']) + bord(c) * (c['_i0'] + 1)))]}},
+                                                                         vis(c['res']) == vsum(c['width'], c['_i0']) + bord(c) * (c['_i0'] + 1))),
+                                          ('one-line-so-far-non-empty-after-the-first-column', lambda c: And(nl(c['res']) == 0, Implies(Or(c['_i0'] > 0, c['border']), tlen(c['res']) > 0)))]}},
               'ensures': [('C20/visible-width-of-a-row-is-the-sum-of-column-widths-plus-padding-and-borders',
-                           lambda c: vis(c.result.e) == vsum(c['width'], LI_.len(c['width'])) + bord(c) * (LI_.len(c['width']) + 1))]}
+                           lambda c: vis(c.result.e) == vsum(c['width'], LI_.len(c['width'])) + bord(c) * (LI_.len(c['width']) + 1)),
+                          ('C20/a-row-is-one-line', lambda c: nl(c.result.e) == 0),
+                          ('C20/a-row-with-a-column-or-a-border-is-not-empty', lambda c: Implies(Or(LI_.len(c['width']) > 0, c['border']), tlen(c.result.e) > 0))]}
         return Engine(F, '_TextTableRow.repr', {'fn:colored_text': c_colored_text}, CLASSES, fc, plugins=[TextPlugin()]), _Both()
     return Unit('_TextTableRow.repr', F, build, ['C20'])
 
@@ -167,3 +171,156 @@ class _Both(_LazyAxioms):
 
 
 UNITS = [colored_text_unit(), row_repr_unit()]
+
+
+# ------------------------------------------------------------------------------------------------ TextTable.text_repr
+TT = REF('TextTable'); ROWS = REF('RowList'); LRW = LIST(ROW)
+WMd = Datatype('WidthMap'); WMd.declare('mk', ('n', IntSort()), ('vals', ArraySort(IntSort(), IntSort()))); WMd = WMd.create()
+WM = S('WidthMap', WMd)
+TCLASSES = dict(CLASSES); TCLASSES.update({'TextTable': {'_TextTable__rows': ROWS}, 'RowList': {'relems': LRW}})
+lines_ok = Function('every_line_has_visible_width', TXT.z, IntSort(), BoolSort())
+_w = Int('_w')
+
+
+def lines_axioms():
+    NL = L('\n')
+    return [ForAll([a_, _w], Implies(And(nl(a_) == 0, vis(a_) == _w), lines_ok(a_, _w)), patterns=[lines_ok(a_, _w)]),                                      # a text without line break is one line
+            ForAll([a_, b_, _w], Implies(And(lines_ok(a_, _w), nl(b_) == 0, vis(b_) == _w), lines_ok(cat(cat(a_, NL), b_), _w)), patterns=[lines_ok(cat(cat(a_, NL), b_), _w)])]   # lines + '\n' + one more line
+
+
+class TablePlugin(TextPlugin):
+    """the dict of column widths of text_repr: keys 0 .. n-1 inserted in increasing order (obliged), so values() lists the widths by column"""
+
+    def ev_Dict(self, eng, e, st):
+        if e.keys: return NotImplemented
+        return [(st, V(WMd.mk(0, K(IntSort(), IntVal(0))), WM))]
+
+    def call(self, eng, e, st):
+        f = e.func
+        if isinstance(f, ast.Attribute) and f.attr == 'setdefault' and isinstance(f.value, ast.Name) and st.env[f.value.id].s == WM:
+            s, k = eng.ev1(e.args[0], st); s, dv = eng.ev1(e.args[1], s); m = s.env[f.value.id].e
+            s.oblige('dict/keys-stay-0..n-1-in-insertion-order', And(k.e >= 0, k.e <= WMd.n(m)), f'@{e.lineno}')
+            has = s.fork(k.e < WMd.n(m)); new = s.fork(k.e == WMd.n(m))
+            new.env = dict(new.env); new.env[f.value.id] = V(WMd.mk(WMd.n(m) + 1, Store(WMd.vals(m), k.e, dv.e)), WM)
+            return [(has, V(Select(WMd.vals(m), k.e), INT)), (new, V(dv.e, INT))]
+        if isinstance(f, ast.Name) and f.id == 'len' and len(e.args) == 1:
+            s, v = eng.ev1(e.args[0], st)
+            if v.s == ROW:
+                s.oblige('safe/AttributeError-None', v.e != ROW.null, f'@{e.lineno}')
+                return [(s, V(LC.len(Select(eng.field(s, 'CellList', 'celems'), Select(eng.field(s, '_TextTableRow', 'cells'), v.e))), INT))]
+        return TextPlugin.call(self, eng, e, st)
+
+    def assign(self, eng, s, target, v):
+        if isinstance(target, ast.Subscript) and isinstance(target.value, ast.Name) and s.env.get(target.value.id) is not None and s.env[target.value.id].s == WM:
+            s2, k = eng.ev1(target.slice, s); m = s2.env[target.value.id].e
+            s2.oblige('dict/assignment-to-an-existing-key', And(k.e >= 0, k.e < WMd.n(m)), f'@{target.lineno}')
+            s2.env[target.value.id] = V(WMd.mk(WMd.n(m), Store(WMd.vals(m), k.e, v.e)), WM)
+            return [(s2, FALL)]
+        return NotImplemented
+
+    def ev_ListComp(self, eng, e, st):
+        g = e.generators[0]
+        if ast.unparse(g.iter).endswith('.values()') and isinstance(g.iter.func.value, ast.Name) and st.env[g.iter.func.value.id].s == WM and not g.ifs:
+            m = st.env[g.iter.func.value.id].e; W = fresh('widths', LI_); j = Int('j')
+            st.assume(And(LI_.len(W) == WMd.n(m), ForAll([j], Implies(And(0 <= j, j < WMd.n(m)), LI_.at(W, j) == Select(WMd.vals(m), j)), patterns=[LI_.at(W, j)])))
+            return [(st, V(W, LI_))]
+        return NotImplemented
+
+    def for_loop(self, eng, stmt, st):
+        if isinstance(stmt.iter, ast.Call) and isinstance(stmt.iter.func, ast.Name) and stmt.iter.func.id == 'range': return NotImplemented
+        s0, seq = eng.ev1(stmt.iter, st)
+        if seq.s != ROWS: return NotImplemented
+        k = eng.loop_contract.get(eng.loop_ids[id(stmt)], (eng.loop_ids[id(stmt)], None))[0]; idxn = f'_i{k}'; eng.locals[idxn] = INT
+        s0.env[idxn] = V(IntVal(0), INT)
+        s0.oblige('safe/AttributeError-None', seq.e != ROWS.null, f'for @{stmt.lineno}')
+        cur = lambda s: Select(eng.field(s, 'RowList', 'relems'), seq.e)
+
+        def guard(s): return [(s, s.env[idxn].e < LRW.len(cur(s)))]
+
+        def pre(b):
+            b.env[stmt.target.id] = V(LRW.at(cur(b), b.env[idxn].e), ROW); b.env[idxn] = V(b.env[idxn].e + 1, INT); return [b]
+        return eng.loop(stmt, s0, guard, pre, extra_havoc=[idxn])
+
+
+def text_repr_unit():
+    def build():
+        j = Int('j'); q = Int('q')
+        rows = lambda c: Select(c.fld('RowList', 'relems'), Select(c.fld('TextTable', '_TextTable__rows'), c['self']))
+        cells = lambda c, r: Select(c.fld('CellList', 'celems'), Select(c.fld('_TextTableRow', 'cells'), r))
+        txt = lambda c: c.fld('_TextTableCell', 'text'); colr = lambda c: c.fld('_TextTableCell', 'color'); bgc = lambda c: c.fld('_TextTableCell', 'bg_color')
+        bord = lambda c: If(c['border'], 1, 0)
+        invisible = lambda o: Implies(OTX.dt.is_some(o), And(vis(OTX.dt.val(o)) == 0, nl(OTX.dt.val(o)) == 0))
+
+        def req(c):
+            R = rows(c)
+            return And(c['self'] != TT.null, Select(c.fld('TextTable', '_TextTable__rows'), c['self']) != ROWS.null, LRW.len(R) >= 0, invisible(c['border_color']),
+                       ForAll([j], Implies(And(0 <= j, j < LRW.len(R)), And(
+                           LRW.at(R, j) != ROW.null, Select(c.fld('_TextTableRow', 'cells'), LRW.at(R, j)) != CELLS.null, LC.len(cells(c, LRW.at(R, j))) >= 1,
+                           OTX.dt.is_none(Select(c.fld('_TextTableRow', 'bg_color'), LRW.at(R, j))), invisible(Select(c.fld('_TextTableRow', 'color'), LRW.at(R, j))),
+                           ForAll([q], Implies(And(0 <= q, q < LC.len(cells(c, LRW.at(R, j)))), And(
+                               LC.at(cells(c, LRW.at(R, j)), q) != CELL.null, vis(txt(c)[LC.at(cells(c, LRW.at(R, j)), q)]) == tlen(txt(c)[LC.at(cells(c, LRW.at(R, j)), q)]),
+                               nl(txt(c)[LC.at(cells(c, LRW.at(R, j)), q)]) == 0, OTX.dt.is_none(bgc(c)[LC.at(cells(c, LRW.at(R, j)), q)]), invisible(colr(c)[LC.at(cells(c, LRW.at(R, j)), q)]))),
+                                  patterns=[LC.at(cells(c, LRW.at(R, j)), q)]))), patterns=[LRW.at(R, j)]))
+        fits = lambda c, r, vals, n, upto: ForAll([q], Implies(And(0 <= q, q < upto), And(q < n, tlen(txt(c)[LC.at(cells(c, r), q)]) <= Select(vals, q))), patterns=[LC.at(cells(c, r), q)])
+
+        def inv1(c):          # outer loop of the width computation
+            R = rows(c); k = c['_i0']; m = c['widths_map']; n, vals = WMd.n(m), WMd.vals(m)
+            return And(k >= 0, k <= LRW.len(R), n >= 0, Implies(k > 0, n >= 1), ForAll([q], Implies(And(0 <= q, q < n), Select(vals, q) >= 0)),
+                       ForAll([j], Implies(And(0 <= j, j < k), fits(c, LRW.at(R, j), vals, n, LC.len(cells(c, LRW.at(R, j))))), patterns=[LRW.at(R, j)]))
+
+        def inv2(c):          # inner loop: the columns of the current row
+            R = rows(c); k = c['_i0']; i = c['_i1']; m = c['widths_map']; n, vals = WMd.n(m), WMd.vals(m); r = c['r']
+            return And(k >= 1, k <= LRW.len(R), r == LRW.at(R, k - 1), i >= 0, i <= LC.len(cells(c, r)), n >= i, Implies(k > 1, n >= 1),
+                       ForAll([q], Implies(And(0 <= q, q < n), Select(vals, q) >= 0)),
+                       ForAll([j], Implies(And(0 <= j, j < k - 1), fits(c, LRW.at(R, j), vals, n, LC.len(cells(c, LRW.at(R, j))))), patterns=[LRW.at(R, j)]),
+                       fits(c, r, vals, n, i))
+        W = lambda c: vsum(c['widths'], LI_.len(c['widths'])) + bord(c) * (LI_.len(c['widths']) + 1)
+
+        def inv3(c):          # assembling the lines
+            R = rows(c); k = c['_i2']; wd = c['widths']; res = c['res']
+            return And(k >= 0, k <= LRW.len(R), LI_.len(wd) >= 0, Implies(LRW.len(R) > 0, LI_.len(wd) >= 1),
+                       ForAll([q], Implies(And(0 <= q, q < LI_.len(wd)), LI_.at(wd, q) >= 0), patterns=[LI_.at(wd, q)]),
+                       ForAll([j], Implies(And(0 <= j, j < LRW.len(R)), ForAll([q], Implies(And(0 <= q, q < LC.len(cells(c, LRW.at(R, j)))),
+                                                                                           And(q < LI_.len(wd), tlen(txt(c)[LC.at(cells(c, LRW.at(R, j)), q)]) <= LI_.at(wd, q))), patterns=[LC.at(cells(c, LRW.at(R, j)), q)])),
+                              patterns=[LRW.at(R, j)]),
+                       If(k == 0, And(tlen(res) == 0, nl(res) == 0), And(tlen(res) > 0, nl(res) == k - 1, lines_ok(res, W(c)))))
+
+        def c_row_repr(eng, st, recv, args, kws, node):
+            """contract of _TextTableRow.repr (proved by row_repr_unit)"""
+            wd, b, bc = args[0].e, args[1].e, eng.coerce(args[2], OTX); r = recv.e; c = Ctx(eng, st)
+            cl = cells(c, r)
+            st.oblige('req@row.repr/cells-fit-their-columns-and-carry-no-colour-codes-or-line-breaks', And(
+                r != ROW.null, Select(c.fld('_TextTableRow', 'cells'), r) != CELLS.null, LI_.len(wd) >= 0, ForAll([q], Implies(And(0 <= q, q < LI_.len(wd)), LI_.at(wd, q) >= 0)),
+                OTX.dt.is_none(Select(c.fld('_TextTableRow', 'bg_color'), r)), invisible(Select(c.fld('_TextTableRow', 'color'), r)), invisible(bc),
+                ForAll([q], Implies(And(0 <= q, q < LC.len(cl)), And(LC.at(cl, q) != CELL.null, vis(txt(c)[LC.at(cl, q)]) == tlen(txt(c)[LC.at(cl, q)]), OTX.dt.is_none(bgc(c)[LC.at(cl, q)]),
+                                                                  invisible(colr(c)[LC.at(cl, q)]), nl(txt(c)[LC.at(cl, q)]) == 0, Implies(q < LI_.len(wd), tlen(txt(c)[LC.at(cl, q)]) <= LI_.at(wd, q)))))), f'@{node.lineno}')
+            out = fresh('rowtext', TXT)
+            st.assume(And(vis(out) == vsum(wd, LI_.len(wd)) + If(b, 1, 0) * (LI_.len(wd) + 1), nl(out) == 0, Implies(Or(LI_.len(wd) > 0, b), tlen(out) > 0)))
+            return [(st, V(out, TXT))]
+
+        def c_get_cell(eng, st, recv, args, kws, node):
+            c = Ctx(eng, st); cl = cells(c, recv.e)
+            st.oblige('safe/IndexError', And(0 <= args[0].e, args[0].e < LC.len(cl)), f'@{node.lineno}')
+            return [(st, V(LC.at(cl, args[0].e), CELL))]
+        fc = {'sig': {'self': TT, 'border': BOOL, 'border_color': OTX}, 'locals': {'widths_map': WM, 'widths': LI_, 'res': TXT, 'r': ROW, 'i': INT},
+              'requires': [('rows-of-one-line-cells-without-colour-codes-each-row-with-a-cell', req)],
+              'loops': {0: {'fingerprint': 'for r in self.__rows', 'havoc': ['widths_map'], 'invariant': [('column-widths-cover-the-rows-visited', inv1)]},
+                        1: {'fingerprint': 'for i in range(0, len(r))', 'havoc': ['widths_map'], 'invariant': [('column-widths-cover-the-cells-visited', inv2)]},
+                        2: {'fingerprint': 'for r in self.__rows', 'invariant': [('lines-so-far', inv3)]}},
+              'ensures': [('C20/one-line-per-row', lambda c: nl(c.result.e) == If(LRW.len(rows(c)) > 0, LRW.len(rows(c)) - 1, 0)),
+                          ('C20/every-line-has-the-same-visible-width', lambda c: Implies(LRW.len(rows(c)) > 0, Exists([_w], lines_ok(c.result.e, _w)))),
+                          ('C20/an-empty-table-prints-nothing', lambda c: Implies(LRW.len(rows(c)) == 0, tlen(c.result.e) == 0))]}
+        eng = Engine(F, 'TextTable.text_repr', {'_TextTableRow.repr': c_row_repr, '_TextTableRow.get_cell': c_get_cell}, TCLASSES, fc, plugins=[TablePlugin()])
+        return eng, _Table()
+    return Unit('TextTable.text_repr', F, build, ['C20'], timeout_ms=15000)
+
+
+class _Table(_LazyAxioms):
+    def __iter__(self):
+        return iter(text_axioms() + SUMAX + lines_axioms())
+
+    def __len__(self):
+        return len(text_axioms() + SUMAX + lines_axioms())
+
+
+UNITS.append(text_repr_unit())
